@@ -46,6 +46,7 @@ def units(tier):
     us += [("f", si, c) for si in (2, 8, 14, 15) for c in codecs]
     us += [("g", si, c) for si in (2, 8, 14, 15) for c in codecs]
     us += [("h", c) for c in codecs]
+    us += [("i", c) for c in codecs]
     us += [("c", os.path.basename(f)) for f in sorted(glob.glob(os.path.join(REPO, "tests", "avro-files", "*.avro")))]
     us += [("d", first) for first in range(6)]
     return us
@@ -191,6 +192,44 @@ def part_f(res, fa, si, codec, tier, seen):
                 if p["meta"].get("avro.codec", b"null").decode() != codec or p["sync"] != marker:
                     res.add(Violation("c05.f", "header-changed-by-append", f"header codec/marker after append: {p['meta'].get('avro.codec')!r} {p['sync'].hex()} | {short(info, 300)}", info))
                 tiling(res, fa, data, info, len(want), p["hdr_end"], want)
+
+
+def part_i(res, fa, codec, seen):
+    """One metadata dict handed to several writer() calls (different schemas, different codecs):
+    each file's header must describe that file."""
+    marker = cont.sync_marker()
+    meta = {"app": "shared"}
+    tops = cont.top_schemas()
+    order = [2, 8, 9, 2, 13, 8]
+    codecs = [codec, "null" if codec != "null" else "deflate", codec, "bzip2", codec, codec]
+    for si, cd in zip(order, codecs):
+        name, raw = tops[si]
+        lists, node, defs = cont.record_lists(raw)
+        recs = lists[2][1]
+        exp = cont.expected(node, defs, recs)
+        info = {"part": "i", "schema": raw, "records": recs, "codec": codec, "file_codec": cd}
+        note_case(info)
+        res.evals += 1
+        fo = io.BytesIO()
+        try:
+            fa.writer(fo, copy.deepcopy(raw), copy.deepcopy(recs), codec=cd, sync_marker=marker, metadata=meta)
+        except Exception as e:
+            res.add(Violation("c05.i", f"write-raised:{type(e).__name__}", f"{e} | {short(info, 300)}", info))
+            continue
+        data = fo.getvalue()
+        seen.add(data)
+        try:
+            p = container.parse(data)
+            got, _ = container.records(p)
+        except Exception as e:
+            res.add(Violation("c05.i", f"independent-parse-failed:{type(e).__name__}", f"a file written with a metadata dict used before cannot be parsed: {e} | {short(info, 400)}", info))
+            continue
+        if len(got) != len(exp) or not all(same(a, b) for a, b in zip(got, exp)):
+            res.add(Violation("c05.i", "independent-records-differ", f"{short(got, 200)} expected {short(exp, 200)} | {short(info, 300)}", info))
+        if p["meta"].get("avro.codec", b"null").decode() != cd:
+            res.add(Violation("c05.i", "codec-key", f"header codec {p['meta'].get('avro.codec')!r} != {cd!r} | {short(info, 300)}", info))
+        if canon.canonical(names.resolve(p["schema"])) != canon.canonical((node, defs)):
+            res.add(Violation("c05.i", "header-schema", f"header schema is not this file's schema | {short(info, 300)}", info))
 
 
 def part_h(res, fa, codec, seen):
@@ -425,6 +464,8 @@ def run_unit(unit, tier):
         part_g(res, fa, unit[1], unit[2], tier, seen)
     elif unit[0] == "h":
         part_h(res, fa, unit[1], seen)
+    elif unit[0] == "i":
+        part_i(res, fa, unit[1], seen)
     elif unit[0] == "c":
         part_c(res, fa, unit[1], seen)
     elif unit[0] == "d":
@@ -448,6 +489,9 @@ def replay(case):
         part_c(res, fa, case["file"], set())
     elif part == "h":
         part_h(res, fa, case["codec"], set())
+        return res.violations
+    elif part == "i":
+        part_i(res, fa, case["codec"], set())
         return res.violations
     elif part == "g":
         si = [i for i, (n, r) in enumerate(cont.top_schemas()) if r == case["schema"]][0]
